@@ -3,6 +3,7 @@ package main
 import (
 	"encoding/hex"
 	"go/token"
+	"strings"
 	"go/types"
 
 	"golang.org/x/crypto/sha3"
@@ -71,3 +72,21 @@ func valuesToBytes(v []value) []byte {
 }
 
 func typesPointer(t types.Type) types.Type { return types.NewPointer(t) }
+
+func init() {
+	extraRegs = append(extraRegs, func() {
+		// chain.CreateTxnMPT over the model trie: a child copy merged back by MergeMPTChanges
+		name := "0chain.net/chaincore/chain.CreateTxnMPT"
+		externals[name] = func(fr *frame, args []value) value {
+			it := args[0].(iface)
+			if it.t != nil && strings.Contains(it.t.String(), "symstate.ModelMPT") {
+				fn, ok := callMethodLookup(fr, it, "ChildWithCache")
+				if !ok {
+					panic(unsupported("ModelMPT.ChildWithCache missing"))
+				}
+				return call(fr.i, fr, fr.callpos, fn, []value{it.v, args[1]})
+			}
+			panic(unsupported("CreateTxnMPT over a real trie inside the executor"))
+		}
+	})
+}
